@@ -90,3 +90,103 @@ def check_equalities(ck, F, rule_prefix):
             problems.append(f'component(s) {missing} take no part in the comparison')
         ck.check(R, cls, not problems, f'{cls}::operator==: ' + '; '.join(sorted(set(problems))), loc=f['loc'], fn=f['id'],
                  detail={'components': comps})
+
+
+def _bool_paths(S, fid, this):
+    """operator as a list of (conditions, returned term) over the symbolic operands"""
+    outs = S.run(fid, this=this, args=[('param', 0)])
+    res = []
+    for st, kind, v in outs:
+        if kind != 'return':
+            return None
+        res.append((list(st.conds), v))
+    return res
+
+
+def _atoms(t, acc):
+    if isinstance(t, tuple) and t:
+        if t[0] == 'op' and t[1] in ('==', '!=') and len(t) == 4:
+            x, y = sorted((t[2], t[3]), key=repr)
+            acc.add(('eq', x, y))
+            return
+        if t[0] == 'op' and t[1] in ('&&', '||') and len(t) == 4:
+            _atoms(t[2], acc); _atoms(t[3], acc)
+            return
+        if t[0] == 'un' and t[1] == '!':
+            _atoms(t[2], acc)
+            return
+        if t[0] == 'k':
+            return
+        acc.add(('raw', t))
+
+
+def _value(t, env):
+    if isinstance(t, tuple) and t:
+        if t[0] == 'k':
+            return bool(t[1])
+        if t[0] == 'op' and t[1] in ('==', '!=') and len(t) == 4:
+            x, y = sorted((t[2], t[3]), key=repr)
+            v = env[('eq', x, y)]
+            return v if t[1] == '==' else (not v)
+        if t[0] == 'op' and t[1] == '&&':
+            return _value(t[2], env) and _value(t[3], env)
+        if t[0] == 'op' and t[1] == '||':
+            return _value(t[2], env) or _value(t[3], env)
+        if t[0] == 'un' and t[1] == '!':
+            return not _value(t[2], env)
+    return env[('raw', t)]
+
+
+def check_inequalities(ck, F, rule_prefix):
+    """operator!= of a value class is the negation of its operator==: defaulted (the compiler rewrites a != b as !(a == b)), or,
+    when written by hand, complementary to operator== for every valuation of the identity comparisons both are built from."""
+    import itertools
+    R = ck.rule(rule_prefix + '.inequality', 'operator!= of the value classes holds exactly when operator== does not: it is defaulted, '
+                'or its evaluation is the complement of that of operator== for every valuation of the identity comparisons they are '
+                'built from (truth table)', floor=4)
+    S = Sym(F, opaque=contracts.default_opaque(F))
+    this = ('sym', 'this')
+    for cls in COMPONENTS:
+        r = F.need_rec(cls)
+        nes = [m for m in r['methods'] if m['name'] == 'operator!=' and len(m.get('params', [])) == 1]
+        if not nes or all(m.get('defaulted') or m.get('implicit') for m in nes):
+            ck.ok(R, cls, detail='defaulted or absent: a != b is rewritten as !(a == b)')
+            continue
+        eq = [f for f in F.fns_in(cls) if f['name'] == 'operator==' and len(f['params']) == 1]
+        ne = [f for f in F.fns_in(cls) if f['name'] == 'operator!=' and len(f['params']) == 1]
+        if not eq or not ne:
+            ck.note(f'{cls}: a hand-written operator!= is declared but never instantiated')
+            ck.ok(R, cls)
+            continue
+        try:
+            pe, pn = _bool_paths(S, eq[0]['id'], this), _bool_paths(S, ne[0]['id'], this)
+        except Unsupported as e:
+            raise AnalysisBroken(f'{cls}::operator!=: outside the evaluator language: {e}')
+        if pe is None or pn is None:
+            ck.fail(R, cls, f'{cls}: operator== / operator!= may throw', loc=ne[0]['loc'], fn=ne[0]['id'])
+            continue
+        atoms = set()
+        for conds, v in pe + pn:
+            for c, _val in conds:
+                _atoms(c, atoms)
+            _atoms(v, atoms)
+        atoms = sorted(atoms, key=repr)
+        if len(atoms) > 10:
+            raise AnalysisBroken(f'{cls}::operator!=: {len(atoms)} atomic comparisons')
+        wit = None
+        for bits in itertools.product((False, True), repeat=len(atoms)):
+            env = dict(zip(atoms, bits))
+
+            def run(paths):
+                vals = {_value(v, env) for conds, v in paths if all(_value(c, env) == val for c, val in conds)}
+                return vals
+            ve, vn = run(pe), run(pn)
+            if len(ve) != 1 or len(vn) != 1:
+                continue            # a valuation no single path is taken for: not a feasible combination
+            if next(iter(ve)) == next(iter(vn)):
+                wit = env
+                break
+        ck.check(R, cls, wit is None,
+                 f'{cls}: operator!= is not the negation of operator==: when ' +
+                 (', '.join(f'{contracts.render(a[1], None, {})[:50]} {"==" if v else "!="} {contracts.render(a[2], None, {})[:50]}' for a, v in wit.items() if a[0] == 'eq') if wit else '') +
+                 f' both answer {next(iter(run(pe))) if wit else ""}', loc=ne[0]['loc'], fn=ne[0]['id'])
